@@ -4,11 +4,15 @@ package common
 
 // Contracts for /verif (contract-based deductive verification). Comment-only.
 
+// The opcert cache map is created by the constructor and never replaced.
+//@ final MessageAuthenticator.kesOpCertCache
+
 // C46: the operational-certificate counter of a pool never goes backwards, and an accepted
 // certificate's issue number becomes the stored one.
 //@ func (m *MessageAuthenticator) verifyKESPeriodRotation(poolID, opcert) (err)
 //@   props C46
 //@   requires nonnil: m != nil && opcert != nil
+//@   requires cache: m.kesOpCertCache != nil
 //@   assigns m.kesOpCertCache[*]
 //@   ensures monotone: err == nil && old(poolID in m.kesOpCertCache) ==> opcert.IssueNumber >= old(m.kesOpCertCache[poolID])
 //@   ensures stored: err == nil && m.kesOpCertCache != nil ==> poolID in m.kesOpCertCache && m.kesOpCertCache[poolID] == opcert.IssueNumber
@@ -56,6 +60,7 @@ package common
 //@   props C46
 //@   attr trackcalls on
 //@   requires nonnil: m != nil
+//@   requires built: m.kesOpCertCache != nil
 //@   ensures disabled: old(m.disableValidation) ==> err == nil
 //@   ensures steps: err == nil && !old(m.disableValidation) ==> msg != nil &&
 //@       called(verifyMessageID) && callres(verifyMessageID) == nil && callarg(verifyMessageID, 1) == msg &&
